@@ -7,6 +7,7 @@ import (
 	"go/types"
 	"os"
 	"strings"
+	"sync"
 
 	"golang.org/x/tools/go/ssa"
 )
@@ -47,8 +48,11 @@ func CalleeName(c *ssa.CallCommon) string {
 }
 
 var globalFuncCache = map[*ssa.Global]*ssa.Function{}
+var globalFuncMu sync.Mutex
 
 func globalFuncValue(g *ssa.Global) *ssa.Function {
+	globalFuncMu.Lock()
+	defer globalFuncMu.Unlock()
 	if f, ok := globalFuncCache[g]; ok {
 		return f
 	}
